@@ -29,7 +29,7 @@ FD = _d.FieldDescriptor
 PROFILE = grammar.profile(
     p_http=0.93, p_get=0.9, p_list=0.7, p_create=0.8, p_update=0.8, p_delete=0.7, p_custom=0.9, p_multi_var_path=0.6,
     p_sstream=0.4, p_cstream=0.0, p_bidi=0.0, p_lro=0.0, p_service_config=0.7, p_yaml=0.05, p_routing=0.1,
-    transports=["rest", "grpc+rest"], p_numeric_enums=0.5, p_additional_binding=0.5, p_reserved_field=0.1, p_reserved_path_var=0.3, p_required_enum=0.3, p_double_star_path=0.25, p_mixed_foreign_io=0.35)
+    transports=["rest", "grpc+rest"], p_numeric_enums=0.5, p_additional_binding=0.5, p_reserved_field=0.1, p_reserved_path_var=0.3, p_required_enum=0.3, p_double_star_path=0.25, p_mixed_foreign_io=0.35, p_required_optional=0.3)
 
 BUDGET = {
     "quick": {"worlds": 150, "runs": 80, "wall_cap": 300, "world_wall": 90},
@@ -619,6 +619,15 @@ def judge_op(spec, codec, scenario, op, evs, probes, numeric):
             w2.CopyFrom(want)
             w2.ClearField(bf)      # presence of an EMPTY body message is not expressible in HTTP/JSON
             want = w2
+        # a REQUIRED field that is also proto3-`optional` and left unset: the property wants it in the query "even when
+        # default-valued", and a query parameter necessarily reconstructs WITH presence - the two clauses pull against
+        # each other here, so presence of a default value on such a field is not judged either way
+        rq = find_message(spec, m["input"])
+        for f0 in (rq or {"fields": []})["fields"]:
+            if f0.get("required") and f0.get("optional") and f0["type"] not in ("message",) and not f0.get("repeated"):
+                if got.HasField(f0["name"]) and not want.HasField(f0["name"]) and getattr(got, f0["name"]) in (0, 0.0, "", b"", False):
+                    got.ClearField(f0["name"])
+                    _bump(probes, "required_optional_default_presence_not_judged")
         if got != want:
             return V("request_not_reconstructed", f"attempt {e['n']}: {e['verb']} {e['url']} body={bytes.fromhex(e['reqs'][0])[:200]!r} "
                      f"reconstructs to {str(got)[:300]!r}; the caller's request is {str(want)[:300]!r}")
